@@ -459,7 +459,7 @@ Definition kinit (k : kind) : kstate :=
 Definition kwire (k : kind) : list umsg :=
   match k with
   | KFused _ c => [URequest (c_init c)]
-  | KPar _ w _ _ => [URequest (Z.of_nat w)]
+  | KPar _ w _ _ => [URequest (Z.of_nat (Nat.max w 1))]    (* ParallelMap coerces n < 1 to 1 *)
   | _ => []
   end.
 
@@ -485,7 +485,7 @@ Definition kind_of (o : op) : kind :=
   match o with
   | OBatch n => KBatch n default_cfg
   | OBuffer n => KFlow o (buffer_cfg n)
-  | OParMap ord w a b => KPar ord (Nat.max w 1) a b
+  | OParMap ord w a b => KPar ord w a b
   | _ => KFlow o default_cfg
   end.
 
